@@ -7,6 +7,8 @@ import SmsVerif.Driver.Split
 import SmsVerif.Driver.MsgId
 import SmsVerif.Driver.Tlv
 import SmsVerif.Driver.Framing
+import SmsVerif.Driver.Receipt
+import SmsVerif.Driver.Validity
 open SmsVerif SmsVerif.Driver
 
 def dispatch (line : String) : String :=
@@ -17,6 +19,8 @@ def dispatch (line : String) : String :=
   | "dec" :: toks => (handleDec toks).getD "bad-op"
   | "decalloc" :: toks => (handleDecAlloc toks).getD "bad-op"
   | ["pdus"] => handlePdus
+  | "validity" :: toks => (handleValidity toks).getD "bad-op"
+  | "receipt" :: toks => (handleReceipt toks).getD "bad-op"
   | "frame" :: toks => (handleFrame toks).getD "bad-op"
   | "tlv" :: toks => (handleTlv toks).getD "bad-op"
   | "msgid" :: toks => (handleMsgId toks).getD "bad-op"
